@@ -65,11 +65,27 @@ pub struct Ctx {
   pub inner_probes: Option<Arc<Mutex<Vec<Arc<Mutex<ProbeLog>>>>>>,
   /// how often the functions handed to `start` / `defer` were called
   pub factory_calls: Arc<Mutex<u64>>,
+  /// called from inside every closure handed to an operator (predicates, accumulators, key and
+  /// factory functions, tap callbacks) and from a pass-through stage that sees the inner
+  /// observables of group_by / window_with_count while they are being handed over (C07: operator
+  /// closures that re-enter the library)
+  pub closure_hook: ClosureHook,
+}
+
+#[derive(Clone, Default)]
+pub struct ClosureHook(pub Option<Arc<dyn Fn(&'static str) + Send + Sync>>);
+impl ClosureHook {
+  #[inline]
+  pub fn call(&self, site: &'static str) {
+    if let Some(f) = &self.0 {
+      f(site)
+    }
+  }
 }
 
 impl Ctx {
   pub fn new(srcs: Vec<Observable<'static, Val>>) -> Ctx {
-    Ctx { srcs, token: None, probes: Arc::new(Mutex::new(Vec::new())), taps: Arc::new(Mutex::new(TapCounts::default())), allow_threads: false, inner_probes: None, factory_calls: Arc::new(Mutex::new(0)) }
+    Ctx { srcs, token: None, probes: Arc::new(Mutex::new(Vec::new())), taps: Arc::new(Mutex::new(TapCounts::default())), allow_threads: false, inner_probes: None, factory_calls: Arc::new(Mutex::new(0)), closure_hook: ClosureHook::default() }
   }
 }
 
@@ -163,6 +179,7 @@ fn inner_obs(ctx_srcs: &[Observable<'static, Val>], a: i64, x: i64) -> Observabl
 
 pub fn build(j: &Json, ctx: &Ctx) -> Option<Observable<'static, Val>> {
   let tok = ctx.token.clone();
+  let hk = ctx.closure_hook.clone();
   if let Some(i) = j.get("src") {
     return ctx.srcs.get(i.as_i64()? as usize).cloned();
   }
@@ -193,6 +210,7 @@ pub fn build(j: &Json, ctx: &Ctx) -> Option<Observable<'static, Val>> {
         let fc = ctx.factory_calls.clone();
         observables::start(move || {
           let _t = &tok;
+        hk.call("closure");
           *fc.lock().unwrap() += 1;
           rt::probe("start-function");
           Val::Int(a0)
@@ -203,6 +221,7 @@ pub fn build(j: &Json, ctx: &Ctx) -> Option<Observable<'static, Val>> {
         let fc = ctx.factory_calls.clone();
         observables::defer(move || {
           let _t = &tok;
+        hk.call("closure");
           *fc.lock().unwrap() += 1;
           inner.clone()
         })
@@ -223,6 +242,7 @@ pub fn build(j: &Json, ctx: &Ctx) -> Option<Observable<'static, Val>> {
       "zip" => ins[0].zip(&ins[1..]).map(Val::List),
       "combine_latest" => ins[0].combine_latest(&ins[1..], move |v: Vec<Val>| {
         let _t = &tok;
+        hk.call("closure");
         Val::List(v)
       }),
       "sequence_equal" => ins[0].sequence_equal(&ins[1..]).map(Val::Bool),
@@ -250,16 +270,19 @@ pub fn build(j: &Json, ctx: &Ctx) -> Option<Observable<'static, Val>> {
   Some(match op {
     "map" => o.map(move |x: Val| {
       let _t = &tok;
+        hk.call("closure");
       Val::Int(x.int().wrapping_add(a))
     }),
     "map_id" => o.map(move |x: Val| {
       let _t = &tok;
+        hk.call("closure");
       x
     }),
     "filter" => {
       let p = pred(a);
       o.filter(move |x: Val| {
         let _t = &tok;
+        hk.call("closure");
         p(x.int())
       })
     }
@@ -271,6 +294,7 @@ pub fn build(j: &Json, ctx: &Ctx) -> Option<Observable<'static, Val>> {
       let p = pred(a);
       o.take_while(move |x: Val| {
         let _t = &tok;
+        hk.call("closure");
         p(x.int())
       })
     }
@@ -278,6 +302,7 @@ pub fn build(j: &Json, ctx: &Ctx) -> Option<Observable<'static, Val>> {
       let p = pred(a);
       o.skip_while(move |x: Val| {
         let _t = &tok;
+        hk.call("closure");
         p(x.int())
       })
     }
@@ -287,10 +312,12 @@ pub fn build(j: &Json, ctx: &Ctx) -> Option<Observable<'static, Val>> {
     "distinct_until_changed" => o.distinct_until_changed(),
     "scan" => o.scan(move |(acc, x): (Val, Val)| {
       let _t = &tok;
+        hk.call("closure");
       Val::Int(acc.int().wrapping_add(x.int()))
     }),
     "reduce" => o.reduce(move |(acc, x): (Val, Val)| {
       let _t = &tok;
+        hk.call("closure");
       Val::Int(acc.int().wrapping_mul(3).wrapping_add(x.int()))
     }),
     "count" => o.count().map(|c| Val::Int(c as i64)),
@@ -302,6 +329,7 @@ pub fn build(j: &Json, ctx: &Ctx) -> Option<Observable<'static, Val>> {
       let p = pred(a);
       o.all(move |x: Val| {
         let _t = &tok;
+        hk.call("closure");
         p(x.int())
       })
       .map(Val::Bool)
@@ -313,12 +341,24 @@ pub fn build(j: &Json, ctx: &Ctx) -> Option<Observable<'static, Val>> {
     // an endless prefix: only usable under an operator that ends the stream (C06)
     "start_with_endless" => o.start_with((0i64..).map(Val::Int)),
     "buffer_with_count" => o.buffer_with_count(n.max(1)).map(Val::List),
-    "window_with_count" => o.window_with_count(n.max(1)).flat_map(|w: Observable<'static, Val>| w),
+    "window_with_count" => o
+      .window_with_count(n.max(1))
+      .map(move |w: Observable<'static, Val>| {
+        hk.call("hand-over");
+        w
+      })
+      .flat_map(|w: Observable<'static, Val>| w),
     "group_by" => {
       let k = (n as i64).max(1);
+      let hk_h = hk.clone();
       o.group_by(move |x: Val| {
         let _t = &tok;
+        hk.call("closure");
         x.int().rem_euclid(k)
+      })
+      .map(move |g: Observable<'static, Val>| {
+        hk_h.call("hand-over");
+        g
       })
       .flat_map(|g: Observable<'static, Val>| g)
     }
@@ -335,17 +375,21 @@ pub fn build(j: &Json, ctx: &Ctx) -> Option<Observable<'static, Val>> {
     "tap" => {
       let (c1, c2, c3) = (ctx.taps.clone(), ctx.taps.clone(), ctx.taps.clone());
       let (t1, t2, t3) = (tok.clone(), tok.clone(), tok);
+      let (hk1, hk2, hk3) = (hk.clone(), hk.clone(), hk);
       o.tap(
         move |_x: Val| {
           let _t = &t1;
+          hk1.call("tap");
           c1.lock().unwrap().next += 1;
         },
         move |_e| {
           let _t = &t2;
+          hk2.call("tap");
           c2.lock().unwrap().error += 1;
         },
         move || {
           let _t = &t3;
+          hk3.call("tap");
           c3.lock().unwrap().complete += 1;
         },
       )
@@ -356,6 +400,7 @@ pub fn build(j: &Json, ctx: &Ctx) -> Option<Observable<'static, Val>> {
       let ip = ctx.inner_probes.clone();
       o.flat_map(move |x: Val| {
         let _t = &tok;
+        hk.call("closure");
         let inner = inner_obs(&srcs, a, x.int());
         match &ip {
           Some(ip) => {
@@ -371,12 +416,14 @@ pub fn build(j: &Json, ctx: &Ctx) -> Option<Observable<'static, Val>> {
       let srcs = ctx.srcs.clone();
       o.on_error_resume_next(move |e: RxError| {
         let _t = &tok;
+        hk.call("closure");
         inner_obs(&srcs, a, err_id(&e))
       })
     }
     "retry" => o.retry(a.clamp(0, 4) as usize),
     "retry_when" => o.retry_when(move |e: RxError| {
       let _t = &tok;
+        hk.call("closure");
       match a.rem_euclid(4) {
         0 => true,
         1 => false,
